@@ -31,7 +31,9 @@ fn main() {
             let driver = arg_val(&args, "--driver").unwrap_or_else(|| "/verif/lean/.lake/build/bin/driver".into());
             let out = arg_val(&args, "--out").unwrap_or_else(|| format!("/verif/work/{}", prop));
             // panics inside guarded() are expected outcomes; keep stderr quiet
-            std::panic::set_hook(Box::new(|_| {}));
+            if std::env::var("VERIF_PANIC").is_err() {
+                std::panic::set_hook(Box::new(|_| {}));
+            }
             let r = match prop.as_str() {
                 "C15" => run::finish(ops::c15::cases(seed, tier), &driver, &out, seed, tier, ops::c15::RULE, serde_json::json!({})),
                 "C16" => run::finish(ops::c16::cases(seed, tier), &driver, &out, seed, tier, ops::c16::RULE, serde_json::json!({})),
@@ -46,6 +48,7 @@ fn main() {
                 }
                 "C05" => run::finish(ops::c05::cases(seed, tier), &driver, &out, seed, tier, ops::c05::RULE, serde_json::json!({})),
                 "C13" => run::finish(ops::c13::cases(seed, tier), &driver, &out, seed, tier, ops::c13::RULE, serde_json::json!({})),
+                "C17" => run::finish(ops::c17::cases(seed, tier), &driver, &out, seed, tier, ops::c17::RULE, serde_json::json!({})),
                 "C07" => run::finish(ops::c07::cases(seed, tier), &driver, &out, seed, tier, ops::c07::RULE, serde_json::json!({})),
                 _ => Err(format!("unknown property {}", prop)),
             };
